@@ -67,6 +67,13 @@ LIBS = {
 }
 
 
+# physical-only cells of the libraries (no output pin): (cell, input pin or None). They may appear anywhere in a netlist and have no function.
+NOOUT = {'NANGATE': [('FILLCELL_X4', None), ('FILLCELL_X32', None)], 'NANGATE_ZN': [('FILLCELL_X1', None), ('FILLCELL_X16', None)],
+         'SAED32': [('ANTENNA_RVT', 'INP'), ('CLOAD1_RVT', 'A'), ('DCAP_RVT', None), ('SHFILL2_RVT', None), ('HEADX2_RVT', 'SLEEP')],
+         'SAED90': [('ANTENNA', 'INP'), ('CLOAD1_LVT', 'INP'), ('DCAP', None), ('DHFILLHLH2', None), ('HEADX4_HVT', 'SLEEP')],
+         'GSC180': []}
+
+
 def fit_to_lib(nl, lib):
     """Replaces gates that the library cannot express by an expressible gate of the same arity (keeps the netlist well formed).
     Also removes open-pin constant idioms the renderer does not use. Returns a new netlist dict."""
@@ -274,6 +281,14 @@ def render_verilog(nl, lib, seed, simple=False, modname='top'):
         insts.append(dict(name=gname, cell=cell, ins={ipins[j]: (pins[j] if j < len(pins) else None) for j in range(n)},
                           outs={opin: f'g{k}' if f'g{k}' in rd else None}))
         inst(cell, gname, conns)
+    # physical-only instances (antenna diodes on some signal, fillers, decaps): several in a row, anywhere among the statements
+    nphys = 0
+    if not simple and NOOUT[lib] and st.pick(3) == 0:
+        srcs = sorted(net)
+        for _ in range(1 + st.pick(6)):
+            cell, pin = NOOUT[lib][st.pick(len(NOOUT[lib]))]
+            conns = [(pin, ref(srcs[st.pick(len(srcs))]))] if pin is not None and srcs and st.pick(4) else []
+            inst(cell, f'phys_{nphys}', conns); nphys += 1
     # outputs that are not the net of their source: continuous assigns (single, concatenated, part select)
     def compact(names, decls):
         """writes a list of bus bits as a part select or a whole bus when they are consecutive in the declared direction, else as a concatenation"""
@@ -374,7 +389,7 @@ def render_verilog(nl, lib, seed, simple=False, modname='top'):
             ports_in_order += [f'{h}[{i}]' for i in range(rng[0], rng[1] + step, step)]
     text = f'// generated\n{st.sp()}module{st.ws()}{modname}{st.sp()}({st.sp()}' + f'{st.sp()},{st.sp()}'.join(hdr) + f'{st.sp()}){st.sp()};\n' + \
            '\n'.join(f'{st.sp()}{s_}' for s_ in allst) + f'\nendmodule{st.ws()}\n'
-    return text, dict(ports=ports_in_order, pi=pi_names, po=po_names, st=st_names, skipped=sorted(skip_gate), insts=insts,
+    return text, dict(ports=ports_in_order, pi=pi_names, po=po_names, st=st_names, skipped=sorted(skip_gate), insts=insts, nphys=nphys,
                       net={k_: tname(v) for k_, v in net.items()}, bound_po=sorted(bound_po))
 
 
